@@ -137,7 +137,14 @@ def make_cases(tier, seed, n_random=None, maxlen=None, long_n=None):
         cases.append(dict(kind="long", name="long:right_linear", g=gL, token=tok, n=n, positions=[n], heap="real"))
         gL, tok = shapes["nullable_unary"]
         cases.append(dict(kind="long", name="long:nullable_unary", g=gL, token=tok, n=n, positions=[n], heap="lifo"))
+        # far below even the SQUARE ROOT of the double range (context weight 1e-1800): a coefficient that only half compensates
+        # the decay would still underflow here (strengthened after the independently seeded change C04-1)
+        gL, tok = shapes["right_linear"]
+        cases.append(dict(kind="deep", name="deep:right_linear", g=gL, token=tok, n=600, heap="real"))
     else:
+        gL, tok = shapes["right_linear"]
+        for n_ in (600, 1500):
+            cases.append(dict(kind="deep", name=f"deep:right_linear@{n_}", g=gL, token=tok, n=n_, heap=["real", "lifo"][n_ > 1000]))
         for j, (name, (gL, tok)) in enumerate(shapes.items()):
             # the exact oracle is cubic in the context length with a large constant on left-recursive shapes
             slow = name in ("left_linear", "two_level")
@@ -364,11 +371,62 @@ def check_long(cx):
         out["sample"] = dict(grammar=bridge.fmt_grammar(g), context=f"{tok}^{n}", log10_context_weight=round(lmspec.log_of(pw) / math.log(10), 2))
 
 
+def check_deep(cx):
+    """Right-linear grammar N0 -> a N0 | b N0 | c: after a^k the parser is in the same situation for every k, so the next-token
+    distribution after a^n equals the one after a^3 (computed by the exact spec) and PW_e(a^n) = t^n * PW_e(()) - an oracle that
+    needs no cubic computation on the long context."""
+    from genlm.grammar.cfglm import EOS
+    from genlm.grammar.parse import earley_rescaled
+    case, out = cx.case, cx.out
+    g, tok, n = case["g"], case["token"], case["n"]
+    ge = lmspec.add_eos(g, EOS)
+    Ve = sorted(ge.V, key=repr)
+    nw, exact = lmspec.next_weights(Q, ge, (tok,) * 3)
+    pw3 = sum(nw.values())
+    exp = {t: _f(nw[t] / pw3) for t in Ve}
+    t_w = [w for w, h, b in g.rules if b[:1] == (tok,)][0]
+    pw0 = sum(lmspec.next_weights(Q, ge, ())[0].values())
+    cfg = bridge.to_cfg(g, "Float")
+    st, lm = call(earley_rescaled.EarleyLM, cfg)
+    out["n"] += 1
+    if st != "ok":
+        cx.viol(OB_BUILD % QUAL["rescaled"], "raised: " + lm.split(":")[0], "rescaled", None, lm, "a language model")
+        return
+    c = (tok,) * n
+    # feed the context token by token (a cold chart() recursion this deep would hit Python's recursion limit)
+    for k in range(0, n + 1, 50):
+        st, p = call(lm.p_next, c[:k])
+        if st != "ok":
+            break
+    st, p = call(lm.p_next, c)
+    out["n"] += 1
+    where = dict(token=tok, length=n)
+    if st != "ok":
+        cx.viol(OB_LONG, "raised: " + p.split(":")[0], "rescaled", where, p, "a distribution")
+        return
+    pv = {t: _f(v) for t, v in p.items()}
+    s = math.fsum(pv.values())
+    if not num_close(s, 1, rel=1e-9, abs_=0):
+        cx.viol(OB_LONG, "wrong-value: does not sum to one", "rescaled", where, s, 1)
+    elif any(not num_close(pv.get(t, 0.0), exp[t], rel=1e-6, abs_=1e-14) for t in Ve):
+        cx.viol(OB_LONG, "wrong-value", "rescaled", where, pv, exp)
+    st, lp = call(lm.model.logp, c)
+    out["n"] += 1
+    want = n * math.log(float(t_w)) + math.log(float(pw0))
+    if st != "ok":
+        cx.viol(OB_LOGP, "raised: " + lp.split(":")[0], "rescaled", where, lp, want)
+    elif not num_close(_f(lp), want, rel=1e-9, abs_=1e-6):
+        cx.viol(OB_LOGP, "wrong-value", "rescaled", where, _f(lp), want)
+    out["keys"].append(sig(case["name"], n))
+
+
 def check_case(case):
     cx = Ctx(case)
     real = _patch_heaps(case)
     try:
-        if case["kind"] == "short":
+        if case["kind"] == "deep":
+            check_deep(cx)
+        elif case["kind"] == "short":
             check_short(cx)
         else:
             check_long(cx)
